@@ -184,9 +184,15 @@ PROPS = {
                       "duplicated, stereo paired, >2 channels rejected); conversion spec exact/in [-1,1)/monotone; DecodeScheduler::frame_at_index, "
                       "seek_to and run return the right source frame for EVERY decoder meeting the Decoder contract (any packet sizes, any seek "
                       "granularity) after any call history, the modelled WAV decoder meets the contract, hence streaming an encoded WAV equals "
-                      "loading it from any start and after any seeks; the static packet loop stops at the first EOF/error as coded. The same "
+                      "loading it from any start and after any seeks; the static packet loop stops at the first EOF/error as coded; streaming "
+                      "ENDS: for every decoder that makes progress (reports the end of its data as an error, not as an empty chunk) frame_at_index, "
+                      "run and the decoder thread return within a bounded number of decode calls, and the modelled WAV decoder makes progress on "
+                      "every byte string (truncated, header promising more than the file holds), so such a stream ends with reached_end or an "
+                      "error on the handle + Stopped, never a hang (and a decoder answering EOF with Ok([]) provably spins). The same "
                       "definitions run as the twin: the bytes kira loads are the bytes the Lean encoder printed, and frames/count/rate/error kinds "
-                      "of StaticSoundData::from_cursor and of the hook-stepped StreamingSoundData agree bit-for-bit, also on single-point mutations",
+                      "of StaticSoundData::from_cursor and of the hook-stepped StreamingSoundData agree bit-for-bit, also on single-point mutations; "
+                      "files holding fewer frames than their header promises (cut, or length fields increased) are also STREAMED over the edge, "
+                      "hand-stepped and through a real decoder thread (oracles stream_terminates, stream_prefix_of_static, stream_thread_complete)",
         "level_note": "partial: Symphonia's probe, demuxers and codecs are third-party - modelled for canonical PCM WAV only and exercised, not "
                       "verified; 'malformed files never panic/hang/invent samples' is a mutation TEST of that third-party code (oracles sym_*, "
                       "no_panic, watchdog), not a theorem; compressed shipped assets (Ogg Vorbis) are covered by an implementation-side oracle "
